@@ -6,12 +6,15 @@ import (
 	"crypto/ecdsa"
 	"crypto/ed25519"
 	"crypto/elliptic"
+	crand "crypto/rand"
 	"crypto/rsa"
 	"errors"
 	"fmt"
 	"github.com/fxamacker/cbor/v2"
 	"io"
 	"math/big"
+	"sync"
+	"time"
 
 	cose "github.com/veraison/go-cose"
 )
@@ -351,6 +354,7 @@ func runC14(c *Collector, r *Rng, thorough bool) {
 			}
 		}
 	}
+	c14KeySets(c, r)
 }
 
 // serialisations a caller keeps while it serialises other keys: they never change
@@ -436,6 +440,67 @@ func runC15(c *Collector, r *Rng, thorough bool) {
 						c15One(c, "grid", wMap(-1, kv...).Ser())
 					}
 				}
+			}
+		}
+	}
+	// usable keys (real material, public and private halves, every supported curve) whose alg parameter has every
+	// shape a CBOR value can take: text identifiers (RFC 9052 allows tstr in general; this decoder's keys carry a
+	// registered integer), byte strings, null, booleans, floats, arrays, bignums, other algorithms' integers
+	for _, ci := range append([]curveInfo{}, curves...) {
+		k, err := ecdsa.GenerateKey(ci.curve, r)
+		if err != nil {
+			continue
+		}
+		for _, private := range []bool{true, false} {
+			var ck *cose.Key
+			if private {
+				ck, err = cose.NewKeyFromPrivate(k)
+			} else {
+				ck, err = cose.NewKeyFromPublic(&k.PublicKey)
+			}
+			if err != nil {
+				continue
+			}
+			ck.Algorithm = 0
+			b, err := ck.MarshalCBOR()
+			if err != nil {
+				continue
+			}
+			for _, av := range c15AlgShapes() {
+				t, perr := refParseFull(b)
+				if perr != nil || t.Maj != 5 {
+					continue
+				}
+				t.Kids = append(t.Kids, wInt(3, -1), av)
+				t.Val = uint64(len(t.Kids) / 2)
+				c15One(c, "alg-shapes/"+ci.name, t.Ser())
+			}
+		}
+	}
+	if _, edPriv, err := ed25519.GenerateKey(r); err == nil {
+		for _, private := range []bool{true, false} {
+			var ck *cose.Key
+			if private {
+				ck, err = cose.NewKeyFromPrivate(edPriv)
+			} else {
+				ck, err = cose.NewKeyFromPublic(edPriv.Public())
+			}
+			if err != nil {
+				continue
+			}
+			ck.Algorithm = 0
+			b, err := ck.MarshalCBOR()
+			if err != nil {
+				continue
+			}
+			for _, av := range c15AlgShapes() {
+				t, perr := refParseFull(b)
+				if perr != nil || t.Maj != 5 {
+					continue
+				}
+				t.Kids = append(t.Kids, wInt(3, -1), av)
+				t.Val = uint64(len(t.Kids) / 2)
+				c15One(c, "alg-shapes/Ed25519", t.Ser())
 			}
 		}
 	}
@@ -639,6 +704,21 @@ func c15One(c *Collector, class string, data []byte) {
 			derived = cose.AlgorithmEdDSA
 		}
 	}
+	if (k.Type == cose.KeyTypeEC2 || k.Type == cose.KeyTypeOKP) && derived != 0 && perr == nil && w.Maj == 5 {
+		for i := 0; i+1 < len(w.Kids); i += 2 {
+			if kk, v := w.Kids[i], w.Kids[i+1]; kk.Maj == 0 && kk.Val == 3 {
+				if v.Maj == 6 && v.Val == 55799 {
+					c.Fail("C15/selfdescribed-tag-stripped", "accepted a COSE_Key whose alg value is wrapped in tag 55799", rep)
+					continue
+				}
+				matches := (v.Maj == 0 && int64(v.Val) == int64(derived)) || (v.Maj == 1 && -1-int64(v.Val) == int64(derived))
+				reservedZero := v.Maj == 0 && v.Val == 0 // the reserved value 0 is this library's spelling of "no algorithm"
+				if !matches && !reservedZero {
+					c.Fail("C15/alg-curve-mismatch", fmt.Sprintf("accepted a key whose alg parameter is %x; its curve fixes %v", v.Ser(), derived), rep)
+				}
+			}
+		}
+	}
 	if (k.Type == cose.KeyTypeEC2 || k.Type == cose.KeyTypeOKP) && k.Algorithm != 0 && k.Algorithm != derived {
 		c.Fail("C15/alg-curve-mismatch", fmt.Sprintf("accepted alg %v on a key whose curve implies %v", k.Algorithm, derived), rep)
 	}
@@ -815,6 +895,9 @@ func runC17(c *Collector, r *Rng, thorough bool) {
 	}
 	edPub, edPriv, _ := ed25519.GenerateKey(kr)
 	keysC = append(keysC, keyCase{"Ed25519", edPriv, edPub, "KEd25519", "KEd25519", "ed", 0})
+	// the same key behind crypto.Signers that are not literally ed25519.PrivateKey (a wrapper value, a pointer)
+	keysC = append(keysC, keyCase{"Ed25519-wrapped", opaqueSigner{edPriv}, edPub, "KEd25519", "KEd25519", "ed", 0})
+	keysC = append(keysC, keyCase{"Ed25519-pointer", &edPriv, edPub, "KEd25519", "KEd25519", "ed", 0})
 	keysC = append(keysC, keyCase{"foreign", foreignSigner{foreignPub{}}, foreignPub{}, "KForeign", "KForeign", "foreign", 0})
 	keysC = append(keysC, keyCase{"foreign-nilpub", foreignSigner{nil}, nil, "KForeign", "KForeign", "foreign", 0})
 	// by-value public key types are not accepted either
@@ -1013,6 +1096,125 @@ func runC17(c *Collector, r *Rng, thorough bool) {
 			}
 		}
 	}
+	// --- an Ed25519 key behind an opaque crypto.Signer: accepted, and its signatures verify ---
+	{
+		pub, priv, _ := ed25519.GenerateKey(r)
+		for name, ks := range map[string]crypto.Signer{"wrapper value": opaqueSigner{priv}, "pointer": &priv} {
+			rep := map[string]any{"key": "Ed25519 behind a " + name}
+			c.Eval("opaque-signer-ed25519", name, true)
+			sg, err := cose.NewSigner(cose.AlgorithmEdDSA, ks)
+			if err != nil {
+				c.Fail("C17/newsigner-verdict", "NewSigner(EdDSA) refused a crypto.Signer whose public key is an ed25519.PublicKey: "+err.Error(), rep)
+				continue
+			}
+			msg := r.Bytes(1 + r.Intn(100))
+			sig, err := sg.Sign(r, msg)
+			if err != nil || !ed25519.Verify(pub, msg, sig) {
+				c.Fail("C17/digest-equivalence", fmt.Sprintf("a signature made through an opaque Ed25519 crypto.Signer is not a valid Ed25519 signature (%v)", err), rep)
+			}
+		}
+	}
+	// --- signers of the three PSS algorithms (and of the three ES algorithms) at work at the same time, as in a service
+	// that signs for several tenants: every signature is under its own signer's hash ---
+	{
+		var ks []realKey
+		for _, k := range append(append([]realKey{}, realKeySet(r)...), opaqueKeySet(r)...) {
+			if k.alg != cose.AlgorithmEdDSA {
+				ks = append(ks, k)
+			}
+		}
+		var wg sync.WaitGroup
+		var mu sync.Mutex
+		bad := map[string]int{}
+		rounds := 25
+		if thorough {
+			rounds = 200
+		}
+		for g := 0; g < 2*len(ks); g++ {
+			wg.Add(1)
+			go func(g int) {
+				defer wg.Done()
+				k := ks[g%len(ks)]
+				sg := k.signer()
+				for i := 0; i < rounds; i++ {
+					msg := []byte{byte(g), byte(i), 'm'}
+					var sig []byte
+					var err error
+					if p, _ := protect(func() { sig, err = sg.Sign(crand.Reader, msg) }); p || err != nil {
+						mu.Lock()
+						bad[fmt.Sprintf("%s (%v): Sign failed or panicked: %v", k.name, k.alg, err)]++
+						mu.Unlock()
+						continue
+					}
+					if !refVerify(k.alg, k.pub, msg, sig) {
+						mu.Lock()
+						bad[fmt.Sprintf("%s (%v): the signature is not valid under the signer's algorithm", k.name, k.alg)]++
+						mu.Unlock()
+					}
+				}
+			}(g)
+		}
+		wg.Wait()
+		c.Eval("signers-of-several-algorithms-at-once", fmt.Sprint(len(ks), rounds), true)
+		if len(bad) > 0 {
+			c.Fail("C17/digest-equivalence", fmt.Sprintf("signers of different algorithms used at the same time: %v", bad), map[string]any{"signers": len(ks)})
+		}
+	}
+	// --- two RSA signers of different PSS algorithms whose opaque keys (an HSM round trip takes its time) are inside
+	// Sign at the same moment: each key is handed its own algorithm's options together with its own digest ---
+	{
+		rk, _ := realKeySet(r)[4].priv.(*rsa.PrivateKey)
+		for _, pair := range [][2]cose.Algorithm{{cose.AlgorithmPS256, cose.AlgorithmPS512}, {cose.AlgorithmPS384, cose.AlgorithmPS256}, {cose.AlgorithmPS512, cose.AlgorithmPS384}} {
+			if rk == nil {
+				break
+			}
+			for _, useDigest := range []bool{false, true} {
+				meet := &meetingPoint{need: 2}
+				var wg sync.WaitGroup
+				errs := make([]string, 2)
+				for i := 0; i < 2; i++ {
+					wg.Add(1)
+					go func(i int) {
+						defer wg.Done()
+						alg := pair[i]
+						ms := &meetingSigner{real: rk, meet: meet}
+						sg, err := cose.NewSigner(alg, ms)
+						if err != nil {
+							errs[i] = "NewSigner: " + err.Error()
+							meet.arrive()
+							return
+						}
+						msg := []byte{byte(i), 'm'}
+						var sig []byte
+						p, _ := protect(func() {
+							if ds, ok := sg.(cose.DigestSigner); ok && useDigest {
+								sig, err = ds.SignDigest(crand.Reader, digestOf(algHash(alg), msg))
+							} else {
+								sig, err = sg.Sign(crand.Reader, msg)
+							}
+						})
+						switch {
+						case p:
+							errs[i] = "panicked"
+						case err != nil:
+							errs[i] = err.Error()
+						case ms.seen != "":
+							errs[i] = ms.seen
+						case !refVerify(alg, &rk.PublicKey, msg, sig):
+							errs[i] = "the signature is not valid under " + alg.String()
+						}
+					}(i)
+				}
+				wg.Wait()
+				c.Eval("two-pss-signers-inside-sign", fmt.Sprint(pair, useDigest), true)
+				for i, e := range errs {
+					if e != "" {
+						c.Fail("C17/digest-equivalence", fmt.Sprintf("a %v signer whose key was inside Sign at the same time as the key of a %v signer: %s", pair[i], pair[1-i], e), map[string]any{"algorithms": fmt.Sprint(pair), "sign_digest": useDigest})
+					}
+				}
+			}
+		}
+	}
 	// --- digest equivalence ---
 	n := 6
 	if thorough {
@@ -1091,4 +1293,165 @@ func (s *recordingSigner) Sign(rand io.Reader, digest []byte, opts crypto.Signer
 	}
 	s.hashes = append(s.hashes, h)
 	return s.key.Sign(rand, digest, opts)
+}
+
+// c14KeySets: a key set as applications hold it - several keys under ONE key identifier (rotation keeps the kid), keys
+// with dozens of additional parameters (a key server's metadata): every key round-trips to an equal key, and the
+// signer built from each private COSE_Key is accepted by the verifier built from its own public counterpart and by
+// none of the others, in whatever order the verifiers were asked for.
+func c14KeySets(c *Collector, r *Rng) {
+	type member struct {
+		name     string
+		priv     crypto.Signer
+		pubBytes []byte
+		prvBytes []byte
+	}
+	for _, extra := range []int{0, 12, 17, 40} {
+		var set []member
+		kid := []byte("current")
+		mk := func(name string, priv crypto.Signer) {
+			pk, e1 := cose.NewKeyFromPublic(priv.Public())
+			sk, e2 := cose.NewKeyFromPrivate(priv)
+			if e1 != nil || e2 != nil {
+				return
+			}
+			for _, k := range []*cose.Key{pk, sk} {
+				k.ID = kid
+				for j := 0; j < extra; j++ {
+					k.Params[int64(-70100-j)] = fmt.Sprintf("metadata-%d", j)
+				}
+			}
+			pb, e1 := pk.MarshalCBOR()
+			sb, e2 := sk.MarshalCBOR()
+			if e1 != nil || e2 != nil {
+				c.Fail("C14/marshal", fmt.Sprintf("a key with %d additional parameters cannot be serialised: %v / %v", extra, e1, e2), map[string]any{"key": name})
+				return
+			}
+			set = append(set, member{name, priv, pb, sb})
+		}
+		for _, ci := range curves {
+			for j := 0; j < 2; j++ {
+				if k, err := ecdsa.GenerateKey(ci.curve, r); err == nil {
+					mk(fmt.Sprintf("%s-%d", ci.name, j), k)
+				}
+			}
+		}
+		for j := 0; j < 2; j++ {
+			if _, priv, err := ed25519.GenerateKey(r); err == nil {
+				mk(fmt.Sprintf("Ed25519-%d", j), priv)
+			}
+		}
+		var verifiers []cose.Verifier
+		var signers []cose.Signer
+		ok := true
+		for _, m := range set {
+			rep := map[string]any{"key": m.name, "additional_parameters": extra, "public": hx(trimTo(m.pubBytes, 200))}
+			var pk, sk cose.Key
+			c.Eval("key-set/round-trip", fmt.Sprint(m.name, extra), true)
+			if err := pk.UnmarshalCBOR(m.pubBytes); err != nil {
+				c.Fail("C14/own-output-refused", fmt.Sprintf("a serialised public key with %d additional parameters cannot be parsed back: %v", extra, err), rep)
+				ok = false
+				break
+			}
+			if err := sk.UnmarshalCBOR(m.prvBytes); err != nil {
+				c.Fail("C14/own-output-refused", fmt.Sprintf("a serialised private key with %d additional parameters cannot be parsed back: %v", extra, err), rep)
+				ok = false
+				break
+			}
+			if back, err := pk.PublicKey(); err != nil || !pubEqual(back, m.priv.Public()) {
+				c.Fail("C14/public-differs", "public key differs after the round trip", rep)
+			}
+			if back, err := sk.PrivateKey(); err != nil || !privEqual(back, m.priv) {
+				c.Fail("C14/private-differs", "private key differs after the round trip", rep)
+			}
+			vf, e1 := pk.Verifier()
+			sg, e2 := sk.Signer()
+			if e1 != nil || e2 != nil {
+				c.Fail("C14/signer-verifier-refused", fmt.Sprintf("%v / %v", e1, e2), rep)
+				ok = false
+				break
+			}
+			verifiers, signers = append(verifiers, vf), append(signers, sg)
+		}
+		if !ok {
+			continue
+		}
+		for i, sg := range signers {
+			sig, err := sg.Sign(r, []byte("message"))
+			if err != nil {
+				continue
+			}
+			for j, vf := range verifiers {
+				if vf.Algorithm() != sg.Algorithm() {
+					continue
+				}
+				verr := vf.Verify([]byte("message"), sig)
+				c.Eval("key-set/cross", fmt.Sprint(set[i].name, set[j].name, extra), true)
+				if i == j && verr != nil {
+					c.Fail("C14/signature-rejected", fmt.Sprintf("the verifier built from the public COSE_Key of %s refuses the signature of the signer built from its private COSE_Key (the set holds other keys under the same kid)", set[i].name), map[string]any{"key": set[i].name, "additional_parameters": extra})
+				}
+				if i != j && verr == nil {
+					c.Fail("C14/signature-rejected", fmt.Sprintf("the verifier built from the public COSE_Key of %s accepts a signature made with the private COSE_Key of %s (same kid, different keys)", set[j].name, set[i].name), map[string]any{"signer": set[i].name, "verifier": set[j].name})
+				}
+			}
+		}
+	}
+}
+
+func pubEqual(a, b crypto.PublicKey) bool {
+	type eq interface{ Equal(crypto.PublicKey) bool }
+	e, ok := a.(eq)
+	return ok && e.Equal(b)
+}
+func privEqual(a crypto.PrivateKey, b crypto.Signer) bool {
+	type eq interface{ Equal(crypto.PrivateKey) bool }
+	e, ok := a.(eq)
+	return ok && e.Equal(b)
+}
+
+func c15AlgShapes() []*W {
+	return []*W{wTstr("ES256", -1), wTstr("ES384", -1), wTstr("ES512", -1), wTstr("EdDSA", -1), wTstr("", -1), wTstr("none", -1),
+		wBstr([]byte{0x26}, -1), wBstr(nil, -1), wNull(), wUndef(), wBool(true), wBool(false), wFloat64(-7), wFloat16bits(0xc700), wArr(-1), wArr(-1, wInt(-7, -1)), wMap(-1),
+		wTag(3, -1, wBstr([]byte{6}, -1)), wTag(2, -1, wBstr([]byte{1, 0, 0, 0, 0, 0, 0, 0, 0}, -1)), wInt(-7, -1), wInt(-35, -1), wInt(-36, -1), wInt(-8, -1), wInt(-37, -1), wInt(0, -1), wInt(5, -1), wInt(-65537, -1),
+		&W{Maj: 0, Width: 8, Val: 1 << 63}, &W{Maj: 1, Width: 8, Val: 1 << 63}, wInt(-7, 1), wInt(-7, 8)}
+}
+
+// meetingPoint lets goroutines wait until all of them have arrived (or two seconds have passed)
+type meetingPoint struct {
+	mu      sync.Mutex
+	need    int
+	arrived int
+}
+
+func (m *meetingPoint) arrive() {
+	m.mu.Lock()
+	m.arrived++
+	m.mu.Unlock()
+	for i := 0; i < 2000; i++ {
+		m.mu.Lock()
+		ok := m.arrived >= m.need
+		m.mu.Unlock()
+		if ok {
+			return
+		}
+		time.Sleep(time.Millisecond)
+	}
+}
+
+// meetingSigner: an opaque RSA key that waits, once inside Sign, until the other signer's key is inside Sign too, then
+// looks at the options it was handed and signs with them
+type meetingSigner struct {
+	real *rsa.PrivateKey
+	meet *meetingPoint
+	seen string
+}
+
+func (m *meetingSigner) Public() crypto.PublicKey { return &m.real.PublicKey }
+func (m *meetingSigner) Sign(rnd io.Reader, digest []byte, opts crypto.SignerOpts) ([]byte, error) {
+	m.meet.arrive()
+	time.Sleep(2 * time.Millisecond)
+	if opts.HashFunc().Size() != len(digest) {
+		m.seen = fmt.Sprintf("the key was handed a digest of %d octets together with options naming %v", len(digest), opts.HashFunc())
+	}
+	return m.real.Sign(rnd, digest, opts)
 }
